@@ -36,7 +36,7 @@ META = {
     'theorems': ['C15_repr_roundtrip', 'C15_repr_self_delimiting', 'C15_repr_line_safe',
                  'C15_bare_splice_partial', 'C15_bare_splice_refuted',
                  'C15_closed_v0_load', 'C15_closed_v0_dump_partial', 'C15_v0_dump_refuted_unbound_default',
-                 'C15_closed_env', 'C15_env_splice_refuted', 'C15_closed_v1_load',
+                 'C15_closed_env', 'C15_closed_v1_load',
                  'C15_show_nat_injective', 'C15_index_names_injective',
                  'C15_v0_dump_rename_invariant', 'C15_v0_load_no_collision',
                  'C15_v1_field_locals_partial', 'C15_v1_field_local_refuted',
@@ -505,9 +505,6 @@ def make_renaming(r, spec, flavor):
     used_keys = set()
     if flavor in ('strings', 'all'):
         pool = [h for h in HOSTILE if not (eng == 'env' and ('\x00' in h or '=' in h or h == ''))]
-        if eng == 'env' and r.random() < 0.6:
-            # stay outside the F21 region most of the time, so that the other characters are exercised
-            pool = [h for h in pool if not any(c in '"\\\n\r{}' for c in h)]
         r.shuffle(pool)
         for k in key_tokens + tag_tokens:
             if r.random() < 0.8 and pool:
@@ -853,7 +850,7 @@ def model_exprs_for(spec, res):
             out.append((i, 'show_fn [] (%s)' % shape_v0_dump(spec, ts, env=True)))
         elif file == 'environ/wizard.py' and ts is not None:
             if f['name'] == '__init__':
-                out.append((i, 'show_fn_opt [] (env_init_fn %s)' % env_shape(spec, ts)))
+                out.append((i, 'show_fn [] (env_init_fn %s)' % env_shape(spec, ts)))
             elif f['name'] == 'dict':
                 out.append((i, 'show_fn [] (env_dict_fn %s)' % env_shape(spec, ts)))
         elif file == 'v1/loaders.py' and f['name'].startswith('__dataclass_wizard_from_dict_'):
@@ -1005,13 +1002,8 @@ def run(ctx):
                 ctx.traces_validated += 1
                 n_cov += 1
                 ctx.hist('model_covered', f['file'] + ':' + (f['name'] if not f['name'].startswith('__dataclass_wizard') else 'from_dict'))
-                if m is None:
-                    # the model refuses to generate (unsafe bare splice, F21): the implementation must fail or differ
-                    if not env_unsafe_alias(sp):
-                        ctx.broken_tie('model yields no function but no unsafe splice is present', {'spec': sp})
-                    continue
                 if not f['parse_ok']:
-                    if not (sp['engine'] == 'env' and (env_unsafe_alias(sp) or env_reserved_fields(sp))):
+                    if not (sp['engine'] == 'env' and env_reserved_fields(sp)):
                         ctx.broken_tie('generated function does not parse', {'fn': f['name'], 'spec': sp, 'error': f.get('syntax_error')})
                     continue
                 d = compare_fn(m, f)
